@@ -90,6 +90,14 @@ CLAIMS = {
         "R4 is the structural reason positions cannot leak into logic.",
    technique="set-type inference lint + effect analysis on process-global state + def-use layering slices",
    ref="DESIGN.md §2 C19"),
+ "C05": dict(
+   text="Static analysis: the priority flag is traced from the grammar alias (order of SET_KW/RESET_KW in the expansion) through the transformer constant, WriteExpr, both lowering paths "
+        "and IRLatchWrite; every latch-building handler must select its condition rows by op.latch_type (sibling contradiction check); the hold-inversion table is evaluated as data and must be "
+        "total over the comparators lowering can pass and equal to logical negation over the integers; the feedback wire colour must equal the colour the feedback row and the multiplier read, "
+        "external rows read the other colour, and the planner's wire injection must not overwrite the preset selections. NOT decided: the hold/priority behaviour of the emitted rows under "
+        "Factorio's evaluation order and any behaviour over input histories.",
+   technique="grammar-to-IR value-flow trace + sibling-handler contradiction check + constant-table semantics + colour agreement over dict displays",
+   ref="DESIGN.md §2 C05"),
 }
 NA_DEFAULT = "check not built yet (build phase in progress); see DESIGN.md for the planned rules"
 NA = {}
